@@ -528,6 +528,12 @@ def run(ctx):
         "oversize line may be dropped)",
         "pipeline-level: the action chain has at most one action besides the join; output plugin is synchronous (devnull)",
     ]
+    # stream-level windows under a join-like action (shared core harness, lib/core.py): a continuation line put while the heartbeat's
+    # time-out injection runs on the same stream -- also on a stream that has seen time-outs before -- must come out (StreamProto.tla)
+    import core
+    ctx._core_bin = ctx.go_test_build("pipeline")
+    core.execute_and_validate(ctx, "C15", core.window_scenarios(ctx, 8 if quick else 32, 9000), par=1)
+    core.execute_and_validate(ctx, "C15", core.detach_scenarios(ctx, 8 if quick else 24, 9200), par=8)
 
 
 def replay(ctx, bins, jcases):
